@@ -335,15 +335,15 @@ theorem decode_eq (rows : Nat) (cols : List (List Int)) (td : Rat) (init : Int)
     · exact h2 h
   unfold decode
   rcases h with ⟨h1, h2⟩ | ⟨h1, h2⟩ <;> subst h1 h2
-  · simp only [tbl_dec_full, if_true, tbl_dec_init_full, if_neg hz]; rfl
-  · simp only [tbl_dec_full, tbl_dec_piano, tbl_dec_init_piano, if_true, if_neg hz]
-    rfl
+  · have : Model.lookup 128 Gen.C13_DEC_SHAPES = some 0 := by decide
+    simp only [this, if_neg hz]; rfl
+  · have : Model.lookup 88 Gen.C13_DEC_SHAPES = some 21 := by decide
+    simp only [this, if_neg hz]; rfl
 
 /-- `time_div = 0` with at least one note: ZeroDivisionError -/
 theorem decode_div_zero (rows : Nat) (cols : List (List Int)) (h : decodeRuns cols ≠ []) :
     decode rows cols 0 = none := by
   unfold decode
-  simp only
   split
   · rfl
   · simp [h]
